@@ -102,6 +102,9 @@ long bpf_map_delete_elem(void *map, const void *key)
     if (!e)
         return -ENOENT;
     e->used = 0;
+    /* a deleted element goes back to the map's free list at once and may be handed to an update on another CPU: whatever a
+       program still reads through a pointer obtained before the delete is somebody else's data. Model: the slot is overwritten. */
+    memset(e->value, 0xA5, sizeof(e->value));
     return 0;
 }
 
